@@ -3,13 +3,17 @@
    std::map requires its comparator to be a strict weak ordering.  The
    gene_cmp of the pinned i_mep::cse() ([gene_cmp_old]) is not asymmetric:
    two genes with the same function symbol and arguments [1;5] / [2;3] are
-   each "less" than the other.  (On the implementation this shows as lost map
-   nodes -- LeakSanitizer -- and, for multi-category genomes, as arguments
-   redirected to the gene's own row; the check replays such an individual on
-   the real code.)  The repaired comparator [gene_cmp] orders the witness. *)
+   each "less" than the other.  A map with such a comparator guarantees only
+   that the node find() returns is equivalent to the key (Mep/CseAnyDefs.v).
+   [C02_cse_pinned_comparator_wf_refuted]: a well-formed two-category
+   individual (9 rows) and a resolution of the lookups under which cse()
+   rewrites the argument of [2,1] to row 2, its own row -- ill-formed, not
+   executable.  libstdc++'s red-black tree makes exactly these choices: the
+   check replays this individual on the real code (on the pinned comparator it
+   prints [2,1] G 2; on the repaired one G 3, as [w_new_verdict] computes). *)
 From Coq Require Import ZArith List Bool.
 Local Ltac c02_scan0 := idtac. (* separates the Require lines for the dependency scanner of lib/vv.py *)
-From VV Require Import Base.F64 Mep.Genome Mep.OpsDefs Mep.CseProofs.
+From VV Require Import Base.F64 Mep.Genome Mep.OpsDefs Mep.CseProofs Mep.CseAnyDefs Mep.CseAnyProofs.
 Local Ltac c02_scan1 := idtac.
 Import ListNotations.
 
@@ -22,3 +26,15 @@ Theorem C02_gene_cmp_repaired_orders_the_witness :
   gene_cmp swo_witness_a swo_witness_b = true /\ gene_cmp swo_witness_b swo_witness_a = false.
 Proof. exact gene_cmp_asymmetric_on_witness. Qed.
 Print Assumptions C02_gene_cmp_repaired_orders_the_witness.
+
+Theorem C02_cse_pinned_comparator_wf_refuted :
+  wf_sset_b w_ss = true /\ ind_ok_b w_ss 1 w_genome = true /\
+  exists g', cse_genome_any gene_cmp_old w_genome w_choices = Some g' /\
+             ind_ok_b w_ss 1 g' = false /\
+             exists ge, cell g' 2 1 = Some ge /\ g_args ge = [2].
+Proof. exact cse_old_witness. Qed.
+Print Assumptions C02_cse_pinned_comparator_wf_refuted.
+
+Theorem C02_cse_repaired_on_the_witness : w_new_verdict_b = true.
+Proof. exact w_new_verdict. Qed.
+Print Assumptions C02_cse_repaired_on_the_witness.
